@@ -26,12 +26,14 @@
       if ncon > 0:
         efc_idx_efl = np.arange(ne + nf + nl)
         contact_dim = d.contact.dim[ncon_filter];  contact_efc_address = d.contact.efc_address[ncon_filter]
-        efc_idx_c = [];  contact_efc_address_ordered = [ne + nf + nl]
+        efc_idx_c = [];  contact_efc_address_ordered = [];  efc_adr = ne + nf + nl
         for i in range(ncon):
           ndim = max(1, 2 * (dim_i - 1)) if PYRAMIDAL else dim_i
+          if contact_efc_address[i, 0] < 0:          # contact without constraint rows: no rows, address -1   (fix e4120b4)
+            contact_efc_address_ordered.append(-1);  continue
           efc_idx_c.append(contact_efc_address[i, :ndim])
-          if i < ncon - 1: contact_efc_address_ordered.append(contact_efc_address_ordered[-1] + ndim)
-        efc_idx = np.concatenate((efc_idx_efl, *efc_idx_c))
+          contact_efc_address_ordered.append(efc_adr);  efc_adr += ndim
+        efc_idx = np.concatenate((efc_idx_efl, *efc_idx_c)).astype(int)
       else:
         efc_idx = np.arange(nefc);  contact_efc_address_ordered = []
       efc_idx = efc_idx[:nefc]
@@ -46,7 +48,9 @@
     (so the address `-1` of an excluded contact silently reads the LAST of the njmax rows); otherwise IndexError = `none`.
   * `result.efc_x[:] = v` with `len(result.efc_x) = nefc`: `len v = nefc` → copy; `len v = 1` → NumPy broadcast;
     otherwise ValueError = `none`.
-  * `a[i, :ndim]` of a row with `nmaxpyramid` columns is `List.take`.
+  * `a[i, :ndim]` of a row with `nmaxpyramid` columns is `List.take`.  `nmaxpyramid ≥ 1` always (`np.maximum(1, …)`), so
+    `contact_efc_address[i, 0]` exists; the model reads an empty address row as "not negative" (never occurs; `proto` answers
+    ERR for nmaxpyr = 0 with a selected contact, where NumPy raises IndexError).
 
   Text interface (`proto`), one line in, one line out, blank-separated decimal integers:
     put pyr nworld naconmax njmax nmaxpyr ncon nefc  dim[ncon] adr[ncon]
@@ -122,13 +126,19 @@ def put {α β} (pyr : Bool) (nmaxpyr nworld naconmax njmax : Nat) (zp : α) (zr
 def sel {α β} (d : Dev α β) (w : Nat) : List (DCon α) :=
   ((d.cons.take (min d.nacon d.cons.length)).filter (fun c => c.worldid == w))
 
-/-- the rows a contact points at: `contact_efc_address[i, :ndim]` -/
-def blk {α} (pyr : Bool) (c : DCon α) : List Int := c.adr.take (ndim pyr c.dim)
+/-- `contact_efc_address[i, 0] < 0`: a contact without constraint rows -/
+def inactive {α} (c : DCon α) : Bool :=
+  match c.adr with
+  | a :: _ => decide (a < 0)
+  | [] => false
 
-/-- `contact_efc_address_ordered` -/
-def adrOrdered {α} (pyr : Bool) : Nat → List (DCon α) → List Nat
+/-- the rows a contact contributes to `efc_idx`: none if inactive, else `contact_efc_address[i, :ndim]` -/
+def blk {α} (pyr : Bool) (c : DCon α) : List Int := if inactive c then [] else c.adr.take (ndim pyr c.dim)
+
+/-- `contact_efc_address_ordered` (`efc_adr` is the running first argument) -/
+def adrOrdered {α} (pyr : Bool) : Nat → List (DCon α) → List Int
   | _, [] => []
-  | a, c :: cs => a :: adrOrdered pyr (a + ndim pyr c.dim) cs
+  | a, c :: cs => if inactive c then (-1) :: adrOrdered pyr a cs else Int.ofNat a :: adrOrdered pyr (a + ndim pyr c.dim) cs
 
 def nefcOf {α β} (d : Dev α β) (njmax w : Nat) : Nat := min (d.nefc w) njmax
 def neflOf {α β} (d : Dev α β) (w : Nat) : Nat := d.ne w + d.nf w + d.nl w
@@ -175,7 +185,7 @@ structure Got (α β : Type) where
   deriving DecidableEq, Repr
 
 def getCons {α β} (pyr : Bool) (d : Dev α β) (w : Nat) : List (HCon α) :=
-  List.zipWith (fun (c : DCon α) (a : Nat) => (⟨c.dim, Int.ofNat a, c.pay⟩ : HCon α)) (sel d w) (adrOrdered pyr (neflOf d w) (sel d w))
+  List.zipWith (fun (c : DCon α) (a : Int) => (⟨c.dim, a, c.pay⟩ : HCon α)) (sel d w) (adrOrdered pyr (neflOf d w) (sel d w))
 
 /-- `result.efc_x[:] = a[efc_idx]` for ANY per-world device array `a` (`efc.D` and `efc.state` have `njmax_pad ≥ njmax`
     entries, so a negative index wraps around `njmax_pad` there) -/
@@ -185,10 +195,16 @@ def getRowsOf {α β γ} (pyr : Bool) (njmax : Nat) (d : Dev α β) (w : Nat) (a
 def getRows {α β} (pyr : Bool) (njmax : Nat) (d : Dev α β) (w : Nat) : Option (List β) :=
   getRowsOf pyr njmax d w (d.rows w)
 
-/-- the rows of `efc_J`: `efc_J = d.efc.J[world_id, :nefc, :nv]` (or the densified first nefc sparse rows) is indexed by
+/-- the rows of `efc_J` (block `if nefc > 0:`; for nefc = 0 `efc_idx` is empty).  The write `result.efc_J[:nefc*nv] = efc_J[efc_idx].flatten()`
+    (dense) / `mju_dense2sparse(result.efc_J, efc_J[efc_idx], result.efc_J_rownnz, …)` (sparse) needs exactly nefc rows: otherwise
+    ValueError / TypeError = `none` (not modelled: the dense write would broadcast for nv = 1 and a single index).  So the
+    length-1 broadcast of `assignAll` can only matter for nefc = 1.
+    Rows of `efc_J`: `efc_J = d.efc.J[world_id, :nefc, :nv]` (or the densified first nefc sparse rows) is indexed by
     `efc_idx`, so a negative index wraps around `nefc`, not `njmax`, and an index `≥ nefc` raises -/
 def getJRows {α β} (pyr : Bool) (njmax : Nat) (d : Dev α β) (w : Nat) : Option (List β) :=
-  pyGetAll ((d.rows w).take (nefcOf d njmax w)) (efcIdx pyr njmax d w)
+  if (efcIdx pyr njmax d w).length = nefcOf d njmax w then
+    pyGetAll ((d.rows w).take (nefcOf d njmax w)) (efcIdx pyr njmax d w)
+  else none
 
 def get {α β} (pyr : Bool) (njmax : Nat) (d : Dev α β) (w : Nat) : Option (Got α β) :=
   (getJRows pyr njmax d w).bind (fun j => (getRows pyr njmax d w).map (fun r => ⟨getCons pyr d w, r, j, d.ne w, d.nf w, d.nl w⟩))
@@ -237,6 +253,7 @@ def protoGet (a : List Int) : Option String :=
     let cons : List (DCon Int) := (List.range n).map (fun (i : Nat) => ⟨(wid.getD i 0).toNat, (dims.getD i 0).toNat, adrs.getD i [], Int.ofNat i⟩)
     let d : Dev Int Int := ⟨cons, nacon.toNat, fun _ => arange njmax.toNat, fun _ => nefc.toNat,
                             fun _ => ne.toNat, fun _ => nf.toNat, fun _ => nl.toNat⟩
+    if p = 0 ∧ 0 < (sel d w.toNat).length then some "ERR" else
     match get (pyr != 0) njmax.toNat d w.toNat, getRowsOf (pyr != 0) njmax.toNat d w.toNat (arange njmaxpad.toNat) with
     | none, _ => some "ERR"
     | _, none => some "ERR"
